@@ -29,7 +29,7 @@ BUDGET = {
     "thorough": {"cases": 300000, "seconds": 900, "shards": 16},
 }
 REQUIRED_OBS = ["remove_ok", "update_queued_improve", "insert_full_refused", "remove_empty_refused",
-                "update_white_inserts", "tie_at_remove", "drained_heaps", "policy_via_setter", "exhaustive_sequences", "live_removes", "live_decrease_keys"]
+                "update_white_inserts", "tie_at_remove", "drained_heaps", "policy_via_setter", "continued_on_deepcopy", "capacity>=256", "exhaustive_sequences", "live_removes", "live_decrease_keys"]
 MIN_NONTRIVIAL = 200
 
 FLOAT_MAX = sys.float_info.max
@@ -133,6 +133,13 @@ def run_ops(size, policy, ops, res=None, drain=True, via_setter=False):
                 removed_set.add(r)
                 n_removes += 1
                 res.see("remove_ok")
+        elif kind == "deepcopy":
+            import copy
+            old = h
+            h = copy.deepcopy(h)
+            for t in range(size):          # the abandoned original is scribbled on: the copy must not share anything with it
+                old.cost[t] = -1.0 if policy == "min" else 1e300
+            res.see("continued_on_deepcopy")
         elif kind == "ins_full":               # insert when every slot is queued -> False, nothing changes
             _, p = op
             if len(queued) != size:
@@ -167,6 +174,8 @@ def run_ops(size, policy, ops, res=None, drain=True, via_setter=False):
         if len(removed) != len(set(removed)):
             res.violate("drain", "C05/returned-twice", f"an id was returned twice: {removed}")
         res.see("drained_heaps")
+    if size >= 256:
+        res.see("capacity>=256")
     res.nontrivial = size >= 3 and n_removes >= 2 and n_improve >= 1
     res.see("ops", len(ops))
     res.cell(policy, "size" + str(min(size, 8) if size <= 8 else (16 if size <= 16 else (64 if size <= 64 else 200))))
@@ -175,7 +184,9 @@ def run_ops(size, policy, ops, res=None, drain=True, via_setter=False):
 
 # --------------------------------------------------------------------------- generation
 def _cost_source(rng, policy):
-    kind = rng.integers(0, 8)
+    kind = rng.integers(0, 9)
+    if kind == 8:      # infinite costs are costs too
+        return lambda: float(rng.choice([0.0, 1.0, float("inf"), float("-inf"), 2.0]))
     if kind == 7:      # integer costs beyond 2**53: exact as Python ints, not as floats
         return lambda: int(2 ** 53 + int(rng.integers(0, 9)))
     if kind == 5:      # costs far below any absolute epsilon: ordering must still be exact
@@ -196,6 +207,8 @@ def _cost_source(rng, policy):
 def generate(rng, tier, idx):
     maxsize = 64 if tier == "quick" else 200
     size = int(rng.choice([1, 2, 3, 4, 5, 7, 8, 15, 16, 17, 31, 33, maxsize, int(rng.integers(1, maxsize + 1))]))
+    if rng.random() < 0.02:
+        size = int(rng.choice([256, 257, 258, 300]))          # capacities around CPython's small-int cache
     policy = "min" if rng.random() < 0.5 else "max"
     draw = _cost_source(rng, policy)
     mode = int(rng.integers(0, 3))
@@ -267,6 +280,11 @@ def generate(rng, tier, idx):
                 ops.append(["rem"])
             for p in cands:
                 del queued[p]
+    if rng.random() < 0.1 and len(ops) > 3:
+        ops.insert(int(rng.integers(1, len(ops))), ["deepcopy"])       # the history continues on a deep copy of the heap
+    if size >= 256:
+        # make sure the big heap gets full at least once
+        ops = [["ins", int(p), float(rng.integers(0, 5))] for p in range(size)] + [["ins_full", 0], ["rem"], ["rem"]]
     return {"size": size, "policy": policy, "ops": ops, "via_setter": bool(rng.random() < 0.2)}
 
 
@@ -275,7 +293,23 @@ def check(case):
         return _live(case)
     if "exhaustive_sweep" in case:
         return Result()
-    return run_ops(int(case["size"]), case["policy"], case["ops"], via_setter=bool(case.get("via_setter")))
+    return safe_run_ops(int(case["size"]), case["policy"], case["ops"], via_setter=bool(case.get("via_setter")))
+
+
+def safe_run_ops(size, policy, ops, drain=True, via_setter=False):
+    """run_ops, with an exception escaping the heap on a LEGAL sequence reported as what it is: an operation that delivered nothing."""
+    res = Result()
+    try:
+        return run_ops(size, policy, ops, res=res, drain=drain, via_setter=via_setter)
+    except (IndexError, RecursionError, TypeError, ValueError, KeyError, AttributeError, ZeroDivisionError, OverflowError) as ex:
+        import traceback
+        frames = [f for f in traceback.extract_tb(ex.__traceback__) if "heap.py" in f.filename]
+        if not frames:
+            raise          # not raised by the heap: a harness bug, to be reported as such
+        if res.rejected is None:
+            res.violate("exception", f"C05/exception/{type(ex).__name__}",
+                        f"a heap operation raised {type(ex).__name__} at heap.py:{frames[-1].lineno} in {frames[-1].name} on a legal sequence ({len(ops)} ops, capacity {size}, {policy})")
+        return res
 
 
 def _live(case):
@@ -373,7 +407,7 @@ def _exhaustive(tier, seed, shard=0, nshards=1):
             stack = [[list(first)]]
             while stack:
                 seq = stack.pop()
-                r = run_ops(size, policy, seq, drain=True)
+                r = safe_run_ops(size, policy, seq, drain=True)
                 n_seq += 1
                 if r.violations:
                     out.append(({"size": size, "policy": policy, "ops": [list(o) for o in seq]}, r))
